@@ -82,8 +82,9 @@ func (b *BFT) ProcessDSE(dse ...*DoubleSignEvidence) (results []*lib.DoubleSigne
 		if err != nil {
 			return nil, err
 		}
-		// ensure the evidence isn't expired
-		minEvidenceHeight, err := b.LoadMinimumEvidenceHeight(rootChainId, committeeHeight)
+		// ensure the evidence isn't expired: the minimum is relative to the current root height
+		// (loading it at the height of the evidence itself would make every piece of evidence valid forever)
+		minEvidenceHeight, err := b.LoadMinimumEvidenceHeight(b.LoadRootChainId(b.Height), b.RootHeight)
 		if err != nil {
 			return nil, err
 		}
